@@ -34,7 +34,8 @@ CONSTANTS
     DaskInput,     \* are the user's arrays dask backed ?
     CheckNans,     \* constructor parameter check_nans
     Deviations,    \* set of enabled Dev_* behaviours (strict spec: {})
-    MaxSnaps       \* bound on stored snapshots
+    MaxSnaps,      \* bound on stored snapshots
+    RotSnapshots   \* BOOLEAN: are serialised trees of the rotator part of the explored behaviour ?
 
 VARIABLES
     m,       \* the model object
@@ -195,13 +196,13 @@ Dev_ComputeSortsAgain ==
 Serialize(ph) ==
     /\ m.fitted /\ Cap.serializable /\ m.namesOK
     /\ Len(snaps) < MaxSnaps
-    /\ snaps' = Append(snaps, [mdl |-> m, ph |-> ph])
+    /\ snaps' = Append(snaps, [kind |-> "model", mdl |-> m, ph |-> ph])
     /\ last' = [kind |-> "serialize", ph |-> ph]
     /\ UNCHANGED <<m, r>>
 
 Restored(sn) == [sn.mdl EXCEPT !.hasInput = @ /\ ~sn.ph, !.inputLazy = @ /\ ~sn.ph]
 Deserialize(i) ==
-    /\ i \in 1..Len(snaps)
+    /\ i \in 1..Len(snaps) /\ snaps[i].kind = "model"
     /\ m' = Restored(snaps[i])
     /\ r' = [r EXCEPT !.shares = FALSE]
     /\ last' = [kind |-> "deserialize", snap |-> i]
@@ -210,7 +211,7 @@ Deserialize(i) ==
 \* a tree that forgets the sorted flag
 Dev_DeserializeDropsSorted(i) ==
     /\ "DeserializeDropsSorted" \in Deviations
-    /\ i \in 1..Len(snaps)
+    /\ i \in 1..Len(snaps) /\ snaps[i].kind = "model"
     /\ m' = [Restored(snaps[i]) EXCEPT !.sorted = FALSE]
     /\ r' = [r EXCEPT !.shares = FALSE]
     /\ last' = [kind |-> "deserialize", snap |-> i]
@@ -243,6 +244,32 @@ RotCompute ==
     /\ r.fitted
     /\ r' = SortStep([r EXCEPT !.lazy = FALSE, !.shares = FALSE])
     /\ last' = [kind |-> "rotcompute"]
+    /\ UNCHANGED <<m, snaps>>
+
+(* rotator.serialize() / Rotator.deserialize(tree): the tree carries the rotator's own results, the
+   preprocessor it projects with and the sorted flag; the rebuilt rotator owns its preprocessor
+   (ph: the tree travels through a storage route, as for the model). *)
+RotSerialize(ph) ==
+    /\ RotSnapshots /\ r.fitted /\ Cap.serializable
+    /\ Len(snaps) < MaxSnaps
+    /\ snaps' = Append(snaps, [kind |-> "rot", rot |-> r, ph |-> ph])
+    /\ last' = [kind |-> "rotserialize", ph |-> ph]
+    /\ UNCHANGED <<m, r>>
+
+RotRestored(sn) == [sn.rot EXCEPT !.shares = FALSE]
+RotDeserialize(i) ==
+    /\ RotSnapshots
+    /\ i \in 1..Len(snaps) /\ snaps[i].kind = "rot"
+    /\ r' = RotRestored(snaps[i])
+    /\ last' = [kind |-> "rotdeserialize", snap |-> i]
+    /\ UNCHANGED <<m, snaps>>
+
+\* a rotator tree that forgets the sorted flag (the rebuilt rotator would sort its modes a second time)
+Dev_RotDeserializeDropsSorted(i) ==
+    /\ "RotDeserializeDropsSorted" \in Deviations /\ RotSnapshots
+    /\ i \in 1..Len(snaps) /\ snaps[i].kind = "rot"
+    /\ r' = [RotRestored(snaps[i]) EXCEPT !.sorted = FALSE]
+    /\ last' = [kind |-> "rotdeserialize", snap |-> i]
     /\ UNCHANGED <<m, snaps>>
 
 RotQuery ==
@@ -300,6 +327,9 @@ Next ==
     \/ RotFit
     \/ Dev_RotRenamesShared
     \/ RotCompute
+    \/ \E ph \in BOOLEAN : RotSerialize(ph)
+    \/ \E i \in 1..MaxSnaps : RotDeserialize(i)
+    \/ \E i \in 1..MaxSnaps : Dev_RotDeserializeDropsSorted(i)
     \/ RotQuery
     \/ \E d \in Datasets : RotTransform(d)
     \/ \E d \in Datasets : Dev_RotTransformUnsorted(d)
@@ -382,6 +412,11 @@ C12_ComputeMakesEager ==
 C13_SnapshotFaithful ==
     [][\A i \in 1..MaxSnaps : (last'.kind = "deserialize" /\ last'.snap = i) =>
          m' = Restored(snaps[i])]_vars
+
+\* C13: a restored rotator is the rotator that was serialised (it only stops sharing the model's preprocessor)
+C13_RotSnapshotFaithful ==
+    [][\A i \in 1..MaxSnaps : (last'.kind = "rotdeserialize" /\ last'.snap = i) =>
+         r' = RotRestored(snaps[i])]_vars
 
 \* C20: the resample is a function of the seed
 C20_SameSeedSameResample == last.kind = "bootfit" => last.resample = last.seed
